@@ -92,6 +92,21 @@ def run(rep, tier, seed):
                 line = ' '.join(['S', 'cmdecompress', tb(s), DIRC[d]] + rules_tokens(nrs))
                 b.add('manager-roundtrip:%s:%s' % (stack, strat.value), line, o2, parse_model_bits, fails,
                       dict(layer='schc', op='cmdecompress', schc=s, rules=nrs, direction=DIRC[d], expect=orig), key=line)
+    # a variable-length field of 32768 bits and more (CoAP option value of 4096..8191 bytes): the 16-bit size of the 28-bit
+    # announcement has its top bit set
+    import packets as P
+    from schc_run import parser_for
+    from schc_util import gen_rfd
+    from microschc.rfc8724 import RuleDescriptor
+    for k in range(2 if tier == 'quick' else 10):
+        pkt, st = P.coap(rnd, opts=[(rnd.choice([3, 11, 300]), rnd.choice([4096, 5000, 8191]))], payload=rnd.randbytes(3))
+        pd = parser_for('CoAP').parse(Buffer(pkt, len(pkt) * 8))
+        pd.direction = DI.UP
+        fds = [gen_rfd(rnd, f, 'vsv' if f.value.length > 1000 else rnd.choice(['vs', 'ns', 'lsbv']), DI.BIDIRECTIONAL) for f in pd.fields]
+        rule = RuleDescriptor(id=mk(randbits(rnd, 4)), field_descriptors=fds)
+        o = case_compress(b, pd, rule, DI.UP, klass='compress:large-variable-length')
+        if o[0] == 'OK':
+            case_decompress(b, o[1], rule, DI.UP, klass='roundtrip:large-variable-length', expect=b2s(pkt), side=rnd.choice([L, R]))
     b.run()
 
 
